@@ -179,6 +179,13 @@ func simplifyHeap(w *Workload, c any) []func() any {
 			return n
 		})
 	}
+	if hc.Passes > 1 {
+		out = append(out, func() any {
+			n := cloneCase(w, hc).(*HeapCase)
+			n.Passes--
+			return n
+		})
+	}
 	return out
 }
 
